@@ -28,6 +28,7 @@ func main() {
 	repo := fs.String("repo", "/repo", "path of the repository (translator)")
 	k3 := fs.Bool("k3", false, "generators also use text that is not valid UTF-8 (known finding K3)")
 	conc := fs.Int("conc", 0, "node profile: number of background query goroutines")
+	twin := fs.Bool("twin", false, "aollist profile: run a twin replica beside the chain and compare application hashes")
 	must(fs.Parse(os.Args[2:]))
 	if *out == "" {
 		fmt.Fprintln(os.Stderr, "-out required")
@@ -43,7 +44,7 @@ func main() {
 			return []Monitor{&aolRecordMonitor{}, &aolAuthMonitor{}, &aolCounterMonitor{}, &feeMonitor{}, &burnMonitor{}}
 		}}, *seed, *n, *out, *replay, *blocks)
 	case "aollist":
-		runChainProfile(profileSpec{name: "aollist", gen: genAolListHistory, monitors: func() []Monitor { return []Monitor{&aolCounterMonitor{}} }}, *seed, *n, *out, *replay, *blocks)
+		runChainProfile(profileSpec{name: "aollist", gen: genAolListHistory, monitors: func() []Monitor { return []Monitor{&aolCounterMonitor{}} }, node: *twin}, *seed, *n, *out, *replay, *blocks)
 	case "burn":
 		runChainProfile(profileSpec{name: "burn", gen: genBurnHistory, monitors: func() []Monitor { return []Monitor{&burnMonitor{}, &feeMonitor{}} }}, *seed, *n, *out, *replay, *blocks)
 	case "pnft":
